@@ -184,7 +184,17 @@ class Check:
                     continue
             todo.append((c, kind, body, key, fid))
         if len(todo) > max_confirm:
-            print("  [%s] note: %d distinct counterexample candidates, replaying the first %d" % (self.pid, len(todo), max_confirm))
+            # one kind of candidate must not crowd the others out of the replay budget: take them kind by kind in turn
+            # (for each kind in order of first appearance)
+            by_kind = {}
+            for t in todo:
+                by_kind.setdefault((t[1], t[4]), []).append(t)
+            todo = []
+            while any(by_kind.values()):
+                for k in list(by_kind):
+                    if by_kind[k]:
+                        todo.append(by_kind[k].pop(0))
+            print("  [%s] note: %d distinct counterexample candidates, replaying %d of them (kinds in turn)" % (self.pid, len(todo), max_confirm))
             self.unreplayed = len(todo) - max_confirm
             todo = todo[:max_confirm]
         for c, kind, body, key, fid in todo:
